@@ -148,6 +148,19 @@ def gen():
             'return (same(lambda: op(Quantity(v, "m"), x), lambda: op(v, x)) and same(lambda: op(x, Quantity(v, "m")), lambda: op(x, v))\n'
             '        and same(lambda: op(Quantity(v, "m"), Quantity(x, "m")), lambda: op(v, x)))' % lam,
             '%s on special values' % opn, timeout=40)
+    # one object on both sides: q == q, q <= q, q - q ... must give what v does with itself (nan != nan, inf - inf is nan)
+    allops = [(n, e) for n, e, _ in BINOPS] + CMPOPS
+    add('self_special', 'i: int, k: int, unit: bool', '0 <= i < len(SPECIALS) and 0 <= k < %d' % len(allops),
+        'v = special(i); q = Quantity(v, "m" if unit else None)\n'
+        + ''.join('if k == %d:\n    if %s and not abs(v) <= 8:\n        return True\n    op = lambda a, b: %s\n    return same(lambda: op(q, q), lambda: op(v, v))\n'
+                  % (n, 'True' if name in ('pow', 'lshift', 'rshift') else 'False', expr) for n, (name, expr) in enumerate(allops))
+        + 'return True',
+        'the same Quantity object on both sides of every binary and comparison operator (identity is not equality: NaN)', timeout=120)
+    add('self_int', 'vi: int, k: int', '0 <= k < %d' % len(CMPOPS),
+        'q = Quantity(vi, "m")\n'
+        + ''.join('if k == %d:\n    op = lambda a, b: %s\n    return same(lambda: op(q, q), lambda: op(vi, vi))\n' % (n, expr) for n, (name, expr) in enumerate(CMPOPS))
+        + 'return True',
+        'the same Quantity object on both sides of the comparison operators, symbolic int value')
     return H
 
 
